@@ -184,6 +184,16 @@ def check_paths(msg, tree, idmap, paths, ms, rec, mode):
         seen.add(tpath)
         ref = [a.start for a in R.find(tree, tpath)]
         try:
+            if (len(seen) + len(tpath)) % 3 == 0:
+                # the same path is first searched in another AVP list (the documented alt_list use): that search
+                # answers for that list, and must not change what the message itself answers afterwards
+                other_list = msg.avps[:1]
+                alt = msg.find_avps(*tpath, alt_list=other_list)
+                alt_ref = [a.start for a in R.find(tree[:1], tpath)]
+                if [idmap.get(id(o), -1) for o in alt] != alt_ref:
+                    rec.violation("C02/find/alt-list", {"msg": ms, "path": tpath},
+                                  f"search of the first AVP only: positions {[idmap.get(id(o), -1) for o in alt]} != reference {alt_ref}")
+                rec.cls("find:after-alt-list-search")
             got = msg.find_avps(*tpath)
             got_pos = [idmap.get(id(o), -1) for o in got]
         except Exception as e:
@@ -441,7 +451,7 @@ def run(tier, scale=1.0):
     rec = Recorder(PID)
     for d in hyp.pool_run(shard_main, (tier, scale)):
         rec.merge(d)
-    required = {"cmd:typed-cmd": 1, "cmd:untyped-cmd": 1, "cmd:unknown-code": 1,
+    required = {"find:after-alt-list-search": 1, "cmd:typed-cmd": 1, "cmd:untyped-cmd": 1, "cmd:unknown-code": 1,
                 "find:deep-hit": 1, "find:vendor-miss": 1, "find:len4": 1, "depth:6": 1,
                 "navps:40+": 1, "history:register-then-decode": 1}
     return finish(rec, tier=tier, level="exploration", rule=RULE, assumptions=ASSUME, t0=t0,
